@@ -48,7 +48,7 @@ def check(tier, seed, t0):
     nev = 3000 if tier == "quick" else 30000
     trace = os.path.join(vf.WORK, "C17_trace.ndjson")
     vf.run_harness(["record", "c17", trace, nev, "--seed", seed, "--pool", pool])
-    tconsts = dict(N=2)
+    tconsts = dict(N=2, CacheInVerdict=False)
     tres, rejected = vf.validate_trace("C17_trace", "Trace_Prepared", tconsts, trace, timeout=3000)
     runs.append(tres)
     kinds = {}
